@@ -216,6 +216,23 @@ func runScopePair(c *Ctx) {
 				}
 				n++
 				own := owningFunc(g, flag)
+				// round 6: flag and channel hoisted together are consistent with each other and still shared between rounds: the election's
+				// state lives in the function that takes the winner out of the channel (one election per receive)
+				for _, ch := range chans {
+					for _, h := range allKids(f) {
+						recvHere := false
+						InspectNoLits(h.Body, func(x ast.Node) bool {
+							if u, ok := x.(*ast.UnaryExpr); ok && u.Op == token.ARROW && ObjOf(h.Info(), u.X) == ch {
+								recvHere = true
+							}
+							return true
+						})
+						if recvHere && h != own {
+							c.Bad(fmt.Sprintf("scope-pair/%s/%s#%d/per-round", f.Name, flag.Name(), n), call.Pos(), "the election state ("+flag.Name()+", "+ch.Name()+") is declared in "+own.Name+" but the winner is taken out of the channel in "+h.Name+", which runs once per probing round (direct phase, then relay phase): "+
+								"after a first round in which every dial failed the election is already taken, the dial that succeeds in the second round closes its connection as a loser and the owner waits for ever on an empty channel")
+						}
+					}
+				}
 				c.Check(own == f, fmt.Sprintf("scope-pair/%s/%s#%d", f.Name, flag.Name(), n), call.Pos(), "election flag "+flag.Name()+" lives in the activation that made the result channel",
 					"the election flag "+flag.Name()+" is declared outside the function that makes the result channel it guards: one flag is shared by successive activations (direct phase, then relay phase); after a failed first phase it is already set, the winner of the second phase closes itself as a loser and the owner waits for ever on an empty channel")
 				return true
